@@ -45,6 +45,8 @@ class Builder:
         self.vars: Dict[str, pt.ScratchVar] = {}
         self.subs: Dict[str, Any] = {}
         self._maybe_stack: List[Any] = []
+        self.load_sites: Dict[int, Any] = {}
+        self._keep: List[Any] = []
         for name, d in rec.get("vars", {}).items():
             if d.get("dyn"):
                 self.vars[name] = pt.DynamicScratchVar(_T[d.get("t", "u")])
@@ -153,7 +155,12 @@ class Builder:
         return pt.Suffix(self.b(e[1], env), self.b(e[2], env))
 
     def b_Load(self, e, env):
-        return self.vars[e[1]].load()
+        x = self.vars[e[1]].load()
+        if len(e) > 2:
+            # site tag (C17): lets a compile error's sourceExpr be mapped back to the recipe
+            self.load_sites[id(x)] = (e[1], e[2])
+            self._keep.append(x)
+        return x
 
     def b_Store(self, e, env):
         return self.vars[e[1]].store(self.b(e[2], env))
